@@ -258,13 +258,11 @@ def next (t : TR) : Bool × TR :=
     let errCount := t.errs.length
     let (tk, r, t1) := findFirst (t.inp.length + 1) t
     -- if len(tr.errs) != 0 { ... }: a clean end of input is io.EOF, removed again at once
-    if r == .eof then (false, t1) else
-    match t1.errs.getLast? with
-    | some .ueof => (false, t1)
-    | lastErr =>
-      if lastErr.isSome && r != .tok && t1.errs.length > errCount then (false, t1)   -- the reader failed
-      else if r == .tok then (true, setNext t1 tk)
-      else
+    if r == .eof then (false, t1)
+    else if t1.errs.getLast? == some .ueof then (false, t1)
+    else if !t1.errs.isEmpty && r != .tok && t1.errs.length > errCount then (false, t1)   -- the reader failed
+    else if r == .tok then (true, setNext t1 tk)
+    else
         let t2 := unreadByte t1
         if t2.panicked then (false, t2) else
         -- ReadRune
